@@ -23,7 +23,9 @@ func mkFn(text string) valid.CommonValidFn {
 }
 
 func mkModelFn(text string) walk.Fn {
-	return func(rule, obj, field string, v reflect.Value) string { return walk.ValueClause(obj, field, v.String(), text) }
+	return func(rule, obj, field string, v reflect.Value) string {
+		return walk.ValueClause(obj, field, v.String(), text)
+	}
 }
 
 type rset struct {
